@@ -191,6 +191,7 @@ func ruleC13For(c *Ctx, sub *ssa.Function, do, rr, pm *ssa.Call, first bool) {
 	c.obI("R13.3", do, "operation-client-first", okP, "the per-operation HTTP client takes precedence over the transport-wide one", whyP)
 
 	nCtx := 0
+	noOpCtx := factNil(vFieldLoadO("rt.ClientOperation", "Context"), true)
 	for _, in := range instrs(sub) {
 		ld, ok := in.(*ssa.UnOp)
 		if !ok {
@@ -200,8 +201,24 @@ func ruleC13For(c *Ctx, sub *ssa.Function, do, rr, pm *ssa.Call, first bool) {
 			continue
 		}
 		nCtx++
-		g := guardedBy(ld, nil, factNil(vFieldLoadO("rt.ClientOperation", "Context"), true))
-		c.obI("R13.3", ld, "operation-context-first", g, "the transport-wide context is consulted only when the operation carries none (a per-operation context takes precedence: the state of the transport-wide context cannot fail or bound a call that brought its own)", "Runtime.Context is read although the operation has its own context")
+		// what matters is every USE of the transport-wide context (a method called on it, handing it to a call, selecting
+		// it as the parent): comparing it with nil or listing it as a candidate consults nothing
+		okU, whyU := true, ""
+		for _, ref := range *ld.Referrers() {
+			switch u := ref.(type) {
+			case ssa.CallInstruction:
+				if !guardedBy(u, nil, noOpCtx) {
+					okU, whyU = false, "Runtime.Context is used by "+calleeName(u.Common())+" although the operation has its own context"
+				}
+			case *ssa.Phi:
+				for i, e := range u.Edges {
+					if e == ssa.Value(ld) && !edgeGuarded(u.Block().Preds[i], u.Block(), nil, noOpCtx) {
+						okU, whyU = false, "Runtime.Context can be selected although the operation has its own context"
+					}
+				}
+			}
+		}
+		c.obI("R13.3", ld, "operation-context-first", okU, "the transport-wide context is used (as parent, or asked for its state) only when the operation carries none: a per-operation context takes precedence, and the state of the transport-wide context cannot fail or bound a call that brought its own", whyU)
 	}
 	c.obF("R13.3", sub, "reads-transport-context", nCtx >= 1, "Submit falls back to the transport-wide context", fmt.Sprintf("%d reads", nCtx))
 
@@ -236,7 +253,7 @@ func ruleC13For(c *Ctx, sub *ssa.Function, do, rr, pm *ssa.Call, first bool) {
 				continue
 			}
 			_, stt := structOf(fa.X.Type())
-			field := stt.Field(fa.Field).Name()
+			field := fieldNameOf(n, stt, fa.Field)
 			// allowed: r.client inside the closure passed to clientOnce.Do in Submit
 			okW := false
 			whyW := "store to Runtime." + field + " on a call path in " + fnName(fn)
